@@ -38,6 +38,15 @@ type Model struct {
 	St    *Stats
 	pre   *pre
 
+	// OpenMayFail: opening this existing regular file may legitimately fail (C11 don't-care: a key applies
+	// but the content has no valid region table).
+	OpenMayFail func(clean string) bool
+
+	// Lenient reports whether an injected I/O fault has fired (C13): from then on a request may also be
+	// answered with its failure code, a listing may omit entries, a read may end the connection after a
+	// correct prefix - but never with other bytes.
+	Lenient func() bool
+
 	// RecordReplies keeps the raw bytes received for every request (needs Conn.KeepRecv)
 	RecordReplies bool
 	Replies       [][]byte
@@ -168,6 +177,8 @@ func pathUsable(p string) bool {
 }
 
 // ---- the step function ----------------------------------------------------
+
+func (m *Model) lenient() bool { return m.Lenient != nil && m.Lenient() }
 
 func (m *Model) tr(format string, a ...any) {
 	if len(m.Trace) < 400 {
@@ -304,7 +315,7 @@ func (m *Model) check(c *Conn, r Req) error {
 		c.CloseWrite()
 		return m.expectClosed(c, what+" truncated at "+fmt.Sprint(r.Short))
 	}
-	if n, ok := replySize[r.Op]; ok && pr.escapes {
+	if n, ok := replySize[r.Op]; ok && (pr.escapes || m.Lenient != nil) {
 		return m.checkEscaping(c, r, pr, n, what)
 	}
 	return m.dispatch(c, r, pr, what)
@@ -332,6 +343,9 @@ func (m *Model) checkEscaping(c *Conn, r Req, pr *pre, n int, what string) error
 		}
 		return nil
 	}
+	if !pr.escapes && !m.lenient() {
+		return errClamp // no fault has fired: the strict verdict stands
+	}
 	m.cwd, m.ro, m.wo, m.roIsImage = saved.cwd, saved.ro, saved.wo, saved.img
 	// exactly the non-existent reply?
 	ne := make([]byte, n)
@@ -342,6 +356,43 @@ func (m *Model) checkEscaping(c *Conn, r Req, pr *pre, n int, what string) error
 		ne = []byte{0xff, 0xff, 0xff, 0xff}
 	}
 	okNE := bytes.Equal(raw, ne) || (r.Op == "DIR_SIZE" && bytes.Equal(raw, make([]byte, 8)))
+	if !pr.escapes && m.lenient() {
+		if r.Op == "DIR_SIZE" && pr.serr == nil && pr.fi.IsDir() {
+			// a walk that hit the fault skips what it could not read: any value up to the true total
+			follow, _, _ := DirSizeTruth(pr.real)
+			if v := int64(be64(raw)); v >= 0 && v <= follow {
+				okNE = true
+			}
+		}
+		if r.Op == "CREATE" && len(raw) == 4 && int32(be32(raw)) == 0 {
+			// the create itself may have succeeded while a later step was hit by the fault
+			okNE = true
+		}
+		if okNE {
+			if m.St != nil {
+				m.St.Label("after a fault: failure reply / partial value accepted")
+			}
+			switch r.Op {
+			case "OPEN_FILE":
+				m.ro = roState{}
+				m.roIsImage = false
+			case "OPEN_DIR":
+				m.cwd = cwdState{kind: cwdUnknown}
+			case "CREATE":
+				m.wo = woState{}
+				if int32(be32(raw)) == 0 {
+					m.wo = woState{open: true, path: pr.real, detached: true}
+				}
+			}
+			return nil
+		}
+		var f *Fail
+		msg := errClamp.Error()
+		if errors.As(errClamp, &f) {
+			msg = f.Msg
+		}
+		return failf("fault-outcome", "%s after an injected fault: reply %x is neither the correct reply (%s) nor the failure code", what, head(raw, 40), msg)
+	}
 	if okNE && mutating[r.Op] && m.AllowWrite && pr.snap != nil {
 		after, _ := Snapshot(m.Root)
 		if d := DiffSnap(pr.snap, after, false); d != "" {
@@ -374,6 +425,21 @@ func (m *Model) checkEscaping(c *Conn, r Req, pr *pre, n int, what string) error
 		}
 	}
 	return nil
+}
+
+// prefixConn replays bytes already taken from a connection before reading on.
+type prefixConn struct {
+	pre []byte
+	net.Conn
+}
+
+func (p *prefixConn) Read(b []byte) (int, error) {
+	if len(p.pre) > 0 {
+		n := copy(b, p.pre)
+		p.pre = p.pre[n:]
+		return n, nil
+	}
+	return p.Conn.Read(b)
 }
 
 type bufConn struct {
@@ -636,10 +702,18 @@ func (m *Model) readDir(c *Conn, what string) error {
 			return failf("listing-attrs", "%s: entry %q mtime %d, truth %d", what, name, mtime, t.mtime)
 		}
 	}
+	missing := false
 	for name := range rem {
 		if entryTruth(m.cwd.dir, name).ok {
-			return failf("listing-complete", "%s: entry %q of %s never reported", what, name, m.cwd.dir)
+			if !m.lenient() {
+				return failf("listing-complete", "%s: entry %q of %s never reported", what, name, m.cwd.dir)
+			}
+			missing = true
 		}
+	}
+	if missing {
+		// after a fault the listing may have been cut short: the handle may or may not be exhausted
+		return nil
 	}
 	m.cwd = cwdState{kind: cwdExhausted, dir: m.cwd.dir}
 	return nil
@@ -677,7 +751,7 @@ func (m *Model) readEntry(c *Conn, v2 bool, what string) error {
 		if nameLen != 0 || isDir != 0 || mtime != 0 || ctime != 0 || atime != 0 {
 			return failf("reply-layout", "%s: end marker with non-zero fields %x", what, hdr)
 		}
-		if m.cwd.kind == cwdOpen && !m.cwd.altNone {
+		if m.cwd.kind == cwdOpen && !m.cwd.altNone && !m.lenient() {
 			for name := range m.cwd.rem {
 				if entryTruth(m.cwd.dir, name).ok {
 					return failf("listing-complete", "%s: end marker while entry %q of %s was never reported", what, name, m.cwd.dir)
@@ -926,6 +1000,11 @@ func (m *Model) openFile(c *Conn, r Req, pr *pre, what string) error {
 			m.ro = roState{kind: roDir}
 		}
 	default:
+		if size == -1 && mtime == 0 && m.OpenMayFail != nil && m.OpenMayFail(clean) {
+			// an image whose decryption cannot be set up (no valid region table for the key that applies)
+			m.ro = roState{}
+			return nil
+		}
 		if size != fi.Size() || mtime != fi.ModTime().Unix() {
 			return failf("open-truth", "%s: %s answered size=%d mtime=%d, truth size=%d mtime=%d", what, clean, size, mtime, fi.Size(), fi.ModTime().Unix())
 		}
@@ -975,7 +1054,9 @@ func unseekable(o Obj, off uint64) bool {
 	}
 	fo, ok := o.(fileObj)
 	if !ok {
-		return false
+		// views over real files inherit the filesystem's offset limit, which the harness cannot probe
+		// through them: very large offsets are a don't-care there as well
+		return off > 1<<40
 	}
 	if int64(off) <= fo.size {
 		return false
@@ -1027,10 +1108,27 @@ func (m *Model) readFile(c *Conn, r Req, what string) error {
 			m.Ended = true
 			return nil
 		}
-		if k := int32(be32(data)); k != -1 && !(k == 0 && r.N == 0) {
+		if k := int32(be32(data)); k != -1 && !(k == 0 && (r.N == 0 || m.ro.kind == roObj)) {
 			return failf("read-announce", "%s without readable object: announced %d", what, k)
 		}
 		return nil
+	}
+	if m.Lenient != nil {
+		data, closed, err := c.ReadN(4)
+		if err != nil {
+			return err
+		}
+		if closed {
+			m.Ended = true
+			if len(data) != 0 || !m.lenient() {
+				return failf("fault-outcome", "%s: connection ended after %d bytes (fault fired: %v)", what, len(data), m.lenient())
+			}
+			return nil
+		}
+		if int32(be32(data)) == -1 && m.lenient() {
+			return nil
+		}
+		c = &Conn{C: &prefixConn{pre: data, Conn: c.C}, Timeout: c.Timeout, KeepRecv: false}
 	}
 	hdr, err := m.readFixed(c, 4, what)
 	if err != nil {
@@ -1054,10 +1152,8 @@ func (m *Model) readFile(c *Conn, r Req, what string) error {
 	if err != nil {
 		return err
 	}
-	if exp, ok := m.ro.obj.ReadAt(int64(r.Off), int(k)); ok {
-		if !bytes.Equal(exp, body) {
-			return failf("read-bytes", "%s: body differs from the object's bytes at +%d", what, firstDiff(exp, body))
-		}
+	if ok, d := objMatch(m.ro.obj, int64(r.Off), body); !ok {
+		return failf("read-bytes", "%s: body differs from the object's bytes at +%d", what, d)
 	}
 	return nil
 }
@@ -1105,6 +1201,23 @@ func (m *Model) readCrit(c *Conn, r Req, what string) error {
 		// may also end the connection: both are fine, nothing may arrive either way
 		return m.endHere(c)
 	}
+	if sat && m.Lenient != nil && r.N > 0 {
+		// a fault may cut the transfer: correct prefix, then the connection ends
+		data, closed, err := c.ReadN(int(r.N))
+		if err != nil {
+			return err
+		}
+		if ok, d := objMatch(m.ro.obj, int64(r.Off), data); !ok {
+			return failf("read-prefix", "%s: received bytes differ from the object's bytes at +%d", what, d)
+		}
+		if closed {
+			m.Ended = true
+			if !m.lenient() {
+				return failf("reply-layout", "%s: connection ended after %d of %d bytes without any fault", what, len(data), r.N)
+			}
+		}
+		return nil
+	}
 	if sat {
 		if r.N == 0 {
 			return nil
@@ -1113,8 +1226,8 @@ func (m *Model) readCrit(c *Conn, r Req, what string) error {
 		if err != nil {
 			return err
 		}
-		if exp, ok := m.ro.obj.ReadAt(int64(r.Off), int(r.N)); ok && !bytes.Equal(exp, body) {
-			return failf("read-bytes", "%s: data differs from the object's bytes at +%d", what, firstDiff(exp, body))
+		if ok, d := objMatch(m.ro.obj, int64(r.Off), body); !ok {
+			return failf("read-bytes", "%s: data differs from the object's bytes at +%d", what, d)
 		}
 		return nil
 	}
@@ -1135,8 +1248,8 @@ func (m *Model) readCrit(c *Conn, r Req, what string) error {
 		return failf("read-prefix", "%s: %d bytes received but only %d exist from that offset", what, len(data), avail)
 	}
 	if len(data) > 0 {
-		if exp, ok := m.ro.obj.ReadAt(int64(r.Off), len(data)); ok && !bytes.Equal(exp, data) {
-			return failf("read-prefix", "%s: received bytes are not a prefix of the object's bytes (diff at +%d)", what, firstDiff(exp, data))
+		if ok, d := objMatch(m.ro.obj, int64(r.Off), data); !ok {
+			return failf("read-prefix", "%s: received bytes are not a prefix of the object's bytes (diff at +%d)", what, d)
 		}
 	}
 	return nil
@@ -1176,6 +1289,22 @@ func (m *Model) readCD(c *Conn, r Req, what string) error {
 	}
 	if r.Count == 0 && !(m.ro.kind == roObj && m.ro.cds > 0) {
 		return m.endHere(c)
+	}
+	if full && m.Lenient != nil && r.Count > 0 {
+		data, closed, err := c.ReadN(len(exp))
+		if err != nil {
+			return err
+		}
+		if known && !bytes.Equal(exp[:len(data)], data) {
+			return failf("read-prefix", "%s: received bytes differ from the expected sectors at +%d", what, firstDiff(exp, data))
+		}
+		if closed {
+			m.Ended = true
+			if !m.lenient() {
+				return failf("reply-layout", "%s: connection ended after %d of %d bytes without any fault", what, len(data), len(exp))
+			}
+		}
+		return nil
 	}
 	if full {
 		if r.Count == 0 {
@@ -1290,6 +1419,10 @@ func (m *Model) write(c *Conn, r Req, pr *pre, what string) error {
 		if res != -1 {
 			return failf("write-gate", "%s without a writable file answered %d", what, res)
 		}
+		return nil
+	}
+	if res == -1 && m.lenient() {
+		m.wo.detached = true // a partial write may have happened: content is no longer predictable
 		return nil
 	}
 	if int64(res) != int64(r.N) {
@@ -1446,6 +1579,41 @@ func (m *Model) Dump() string {
 }
 
 var _ = sort.Strings
+
+// MultiObj is an object whose content is one of several admissible byte strings (don't-cares).
+type MultiObj [][]byte
+
+func (m MultiObj) Size() int64 { return int64(len(m[0])) }
+func (m MultiObj) ReadAt(off int64, n int) ([]byte, bool) { return BytesObj(m[0]).ReadAt(off, n) }
+
+// Match reports whether got equals the slice at off of any candidate.
+func (m MultiObj) Match(off int64, got []byte) bool {
+	for _, c := range m {
+		if e, _ := BytesObj(c).ReadAt(off, len(got)); bytes.Equal(e, got) {
+			return true
+		}
+	}
+	return false
+}
+
+// objMatch compares received bytes with the object's expected bytes; ok=false when they differ.
+func objMatch(o Obj, off int64, got []byte) (ok bool, diffAt int) {
+	if mm, is := o.(interface{ Match(int64, []byte) bool }); is {
+		if mm.Match(off, got) {
+			return true, 0
+		}
+		e, _ := o.ReadAt(off, len(got))
+		return false, firstDiff(e, got)
+	}
+	exp, known := o.ReadAt(off, len(got))
+	if !known {
+		return true, 0
+	}
+	if bytes.Equal(exp, got) {
+		return true, 0
+	}
+	return false, firstDiff(exp, got)
+}
 
 // BytesObj is an object whose full expected content is known.
 type BytesObj []byte
